@@ -32,6 +32,23 @@ def run(ctx):
                                       rng.range(1, 1 << 30) if v % 2 else 0, timeout_ms=8000))
         groups.append(variants)
         gmeta.append((n, imports, base_req, faults))
+    # files that share a package (the package node of the symbol table is created concurrently) and, in half of
+    # the groups, two of them declare the same symbol: the collision must be found under every schedule
+    for k in range(ctx.budget(60, 1500)):
+        n = rng.range(2, 7)
+        imports = random_graph(rng, n, rng.range(0, 30), False)
+        shared = [d for d in range(n) if rng.chance(2, 3)]
+        if len(shared) < 2:
+            shared = [0, 1]
+        dup = rng.shuffle(shared)[:2] if k % 2 == 0 else []
+        base_req = list(range(n))
+        faults = {dup[0]: "link"} if dup else {}      # for the model: one of the two cannot be linked
+        variants = []
+        for v in range(8):
+            variants.append(json_case(n, imports, rng.shuffle(base_req), rng.choice([2, 4, 8, 16]), None,
+                                      rng.range(1, 1 << 30) if v % 2 else 0, timeout_ms=8000, shared_pkg=shared, dup=dup))
+        groups.append(variants)
+        gmeta.append((n, imports, base_req, faults))
     # real files of the repository's own test data, compiled repeatedly with different settings
     td = os.path.join(REPO, "internal", "testdata")
     real_sets = [
